@@ -912,7 +912,8 @@ Proof.
   intros Ht Hb Hd Hwf Hs fuel Hf. rewrite (run_complete c d ess f0 per all stf Ht Hb Hs fuel Hf).
   destruct (spec_tree c d f0 (map fst ess) per all stf Hd Hwf Hs) as (A1 & A2 & A3 & A4 & A5 & A6).
   unfold tr_outcome_ok, final_conf. cbn [tr_sender_ok tr_receiver_ok tr_quiet cf_s cf_r cf_s2r cf_r2s cf_log ss_phase rs_phase ss_names rs_names rs_st].
-  repeat (split; [reflexivity|]). exists per, all. repeat (split; [reflexivity|]). split; [|apply shape_ok].
+  repeat (split; [reflexivity|]). exists per, all. repeat (split; [reflexivity|]).
+  split; [|split; [unfold full_log; eexists; rewrite app_assoc; reflexivity | apply shape_ok]].
   unfold tr_tree_at. split; [exact A1|]. split.
   { intro ln. rewrite A2, in_fold_add. cbn. tauto. }
   split; [rewrite A2; apply nodup_fold_add; constructor|]. auto.
